@@ -50,6 +50,8 @@ class DateTime(Parseable[datetime]):
 
     def __bytes__(self) -> bytes:
         if self._raw is None:
-            raw_str = self.value.strftime('%d-%b-%Y %X %z')
+            # %Y does not pad years below 1000 everywhere
+            year = '%04d' % self.value.year
+            raw_str = self.value.strftime('%d-%b-' + year + ' %X %z')
             self._raw = bytes(raw_str, 'ascii')
         return BytesFormat(b'"%b"') % (self._raw, )
